@@ -98,7 +98,7 @@ func c07Parse(w *core.W, text string, cfg c07Cfg, kind string, files fstest.MapF
 	var zp *dns.ZoneParser
 	records := 0
 	var firstErr error
-	var after string
+	var after, withErr string
 	before := allocated()
 	if w.Guard("ZoneParser", wit, func() {
 		zp = dns.NewZoneParser(bufio.NewReaderSize(rd, 16), cfg.origin, cfg.file)
@@ -125,6 +125,10 @@ func c07Parse(w *core.W, text string, cfg c07Cfg, kind string, files fstest.MapF
 				break
 			}
 			records++
+			if e := zp.Err(); e != nil && withErr == "" {
+				// the error has occurred - Err() says so - and a record is handed out all the same
+				withErr = fmt.Sprintf("Next returned the record %q (ok=true) although Err() already reports: %v", cutS(rr.String()), e)
+			}
 			if records > 70000 {
 				break
 			}
@@ -155,6 +159,9 @@ func c07Parse(w *core.W, text string, cfg c07Cfg, kind string, files fstest.MapF
 	}
 	if after != "" {
 		w.Violation("C07/continues-after-stop/"+kind, after, wit)
+	}
+	if withErr != "" {
+		w.Violation("C07/record-returned-after-error/"+kind, withErr, wit)
 	}
 	// with a single $GENERATE every other line of the text accounts for at most one record
 	plainLines := 0
